@@ -96,7 +96,7 @@ func runChild(cfg hx.Config) error {
 		}
 	}
 
-	nscen := cfg.N(5000, 120000)
+	nscen := cfg.N(12000, 120000)
 	extra := cfg.N(1, 2)
 	for i := 0; i < nscen && !r.Stop() && !tooManyHangs(); i++ {
 		sc := genScenario(rnd, r.Count)
@@ -110,13 +110,13 @@ func runChild(cfg hx.Config) error {
 		runScenario(r, rnd, sc, procs, "")
 	}
 	// cancellation from inside an enricher (outcome not determined: oracle only)
-	ncancel := cfg.N(300, 6000)
+	ncancel := cfg.N(800, 6000)
 	for i := 0; i < ncancel && !r.Stop() && !tooManyHangs(); i++ {
 		runCancelDuringEnrichment(r, rnd, genScenario(rnd, func(string) {}))
 	}
 	r.Notes["cancel_during_enrichment_scenarios"] = ncancel
 	// controlled schedules: the protocol machine must reproduce every transition
-	nproto := cfg.N(1500, 30000)
+	nproto := cfg.N(3000, 30000)
 	for i := 0; i < nproto && !r.Stop() && !tooManyHangs(); i++ {
 		sc := protoScenario(rnd, r.Count)
 		var lim int
@@ -130,7 +130,7 @@ func runChild(cfg hx.Config) error {
 		}
 		controlled(r, rnd, sc, lim, i%4 == 3)
 	}
-	nenrich := cfg.N(800, 15000)
+	nenrich := cfg.N(2000, 15000)
 	for i := 0; i < nenrich && !r.Stop() && !tooManyHangs(); i++ {
 		sc := enrichScenario(rnd, r.Count)
 		lim := 1 + rnd.Intn(4)
